@@ -1,1 +1,163 @@
-From C23 Require Import Model Proofs.
+(* C23/Properties.v -- property C23: authority set changes are applied as Substrate applies them.
+   Model.go_step (variant `fixed`) mirrors grandpa.go / grandpa_changes.go after the five repairs
+   fixes/C23-*.patch; Spec.spec_step is Substrate's AuthoritySet (authorities.rs, fork-tree).
+   `prefix` = the pinned code, only used by the ..._prefix_refuted witnesses. *)
+From Coq Require Import NArith List Bool Arith.
+From C23 Require Import Model Spec Enum Proofs Bounded.
+Import ListNotations.
+Local Open Scope N_scope.
+
+(* --- pending forced changes stay ordered: sort.Search with the repaired predicate inserts at
+   Substrate's position (binary_search_by_key on (effective number, announcing number)), for
+   every ordered list of any length --- *)
+Theorem C23_forced_order : forall t l c, sorted_by_key t l = true ->
+  forced_insert fixed_pred t l c = s_forced_insert t l c /\
+  sorted_by_key t (forced_insert fixed_pred t l c) = true.
+Proof.
+  intros t l c H. split; [apply forced_insert_fixed; exact H|].
+  rewrite forced_insert_fixed by exact H. apply s_forced_insert_sorted. exact H.
+Qed.
+Print Assumptions C23_forced_order.
+
+(* the pinned predicate (conjunction of two >=) breaks the order *)
+Theorem C23_forced_order_prefix_refuted : exists t l c,
+  sorted_by_key t l = true /\ sorted_by_key t (forced_insert prefix_pred t l c) = false.
+Proof.
+  exists [O; 1%nat; 2%nat; 1%nat], [mkpc 4 3 5 0], (mkpc 3 1 6 0). vm_compute. split; reflexivity.
+Qed.
+Print Assumptions C23_forced_order_prefix_refuted.
+
+(* --- set id reported for a block number: gossamer's table (set id -> block at which the set
+   began) read by GetSetIDByBlockNumber equals Substrate's authority_set_changes lookup, for
+   every non-decreasing sequence ls of last-block numbers, of any length --- *)
+Theorem C23_setid_by_number : forall chs ls n, sorted_n ls = true -> go_table_ok chs ls ->
+  setid_loop (S (S (length ls))) chs n (N.of_nat (length ls)) =
+  Some (match s_setid_in (spec_table_from 0 ls) n with Some id => id | None => N.of_nat (length ls) end).
+Proof. exact setid_lookup_agrees. Qed.
+Print Assumptions C23_setid_by_number.
+
+(* --- set ids grow by one per change (every step, every state, both sides) --- *)
+Theorem C23_set_id_increments_by_one : forall v t sched forced s e,
+  g_setid (fst (go_step v t sched forced s e)) = g_setid s \/
+  g_setid (fst (go_step v t sched forced s e)) = g_setid s + 1.
+Proof. exact go_step_setid. Qed.
+Print Assumptions C23_set_id_increments_by_one.
+
+Theorem C23_spec_set_id_increments_by_one : forall t sched forced q e q',
+  spec_step t sched forced q e = Some q' -> s_setid q' = s_setid q \/ s_setid q' = s_setid q + 1.
+Proof. exact spec_step_setid. Qed.
+Print Assumptions C23_spec_set_id_increments_by_one.
+
+(* --- refinement, exhaustive small scope.  For EVERY well-formed block tree with at most 3
+   blocks besides genesis, every assignment of at most 2 change announcements (scheduled or
+   forced, delays 0..2, every best-finalized number up to the block's own) and EVERY order of
+   importing (parent first, on live forks) and finalising its blocks: after every event the
+   repaired Go model and the Substrate specification agree on success/failure, the current set
+   id, the authorities of every set id, the set id reported for every block number, and the
+   next authority change for every live block -- except from a finalisation on that finds a
+   pending forced change announced on the finalised chain (known finding
+   forced-change-on-finalised-chain).  Same for 4 blocks (C23_refines_bounded_4), and for 5 blocks with 1 announcement and delays 0..1
+   (C23_refines_bounded_5). --- *)
+Theorem C23_refines_bounded : forall t, wf t = true -> (length t <= 3)%nat ->
+  forall sf, In sf (change_sets (S (length t)) t 2 2 1) ->
+  explore (2 * length t + 1) t (fst sf) (snd sf) [O] O ginit sinit = true.
+Proof. exact bounded_3. Qed.
+Print Assumptions C23_refines_bounded.
+
+Theorem C23_refines_bounded_4 : forall t, wf t = true -> length t = 4%nat ->
+  forall sf, In sf (change_sets (S (length t)) t 2 2 1) ->
+  explore (2 * length t + 1) t (fst sf) (snd sf) [O] O ginit sinit = true.
+Proof. exact bounded_4. Qed.
+Print Assumptions C23_refines_bounded_4.
+
+Theorem C23_refines_bounded_5 : forall t, wf t = true -> length t = 5%nat ->
+  forall sf, In sf (change_sets (S (length t)) t 1 1 1) ->
+  explore (2 * length t + 1) t (fst sf) (snd sf) [O] O ginit sinit = true.
+Proof. exact bounded_5. Qed.
+Print Assumptions C23_refines_bounded_5.
+
+(* what `explore ... = true` means for one more event of a history *)
+Theorem C23_explore_meaning : forall f t sched forced imported fin g q e,
+  explore (S f) t sched forced imported fin g q = true ->
+  In e (next_events t imported fin) -> guard_forced_on_finalised t q e = false ->
+  match spec_step t sched forced q e with
+  | None => is_rok (snd (go_step fixed t sched forced g e)) = false
+  | Some q' =>
+    let g' := fst (go_step fixed t sched forced g e) in
+    let imported' := match e with Import b => b :: imported | Finalise _ => imported end in
+    let fin' := match e with Import _ => fin | Finalise b => b end in
+    is_rok (snd (go_step fixed t sched forced g e)) = true /\ obs_eq t imported' g' q' = true /\
+    explore f t sched forced imported' fin' g' q' = true
+  end.
+Proof. exact explore_step. Qed.
+Print Assumptions C23_explore_meaning.
+
+(* non-vacuity: a history in which a scheduled change (delay 1) is enacted by a finalisation
+   and a forced change by an import, both models in agreement *)
+Example C23_nonvacuous :
+  let t := [O; 1%nat; 2%nat; 3%nat] in
+  let sched := [(1%nat, mkpc 1 1 5 0)] in let forced := [(3%nat, mkpc 3 1 6 2)] in
+  let evs := [Import 1; Import 2; Finalise 2; Import 3; Import 4] in
+  let g := fst (run_go fixed t sched forced ginit evs) in
+  g_setid g = 2 /\ g_auths g = [(0, genesis_auth); (1, 5); (2, 6)] /\ g_changes g = [(0, 0); (1, 2); (2, 2)] /\
+  option_map s_setid (run_spec t sched forced sinit evs) = Some 2 /\
+  option_map s_changes (run_spec t sched forced sinit evs) = Some [(0, 2); (1, 2)].
+Proof. vm_compute. repeat split; reflexivity. Qed.
+
+(* ---------------- the pinned code, one witness per repaired defect ---------------- *)
+Definition only (k : nat) : variant :=     (* all repairs applied except number k *)
+  mkvariant (negb (Nat.eqb k 1)) (negb (Nat.eqb k 2)) (negb (Nat.eqb k 3)) (negb (Nat.eqb k 4)) (negb (Nat.eqb k 5)).
+
+(* forced change (block 2, best finalized 1, delay 0): Substrate says block 2 belongs to set 1 *)
+Theorem C23_forced_setid_prefix_refuted :
+  let t := [O; 1%nat] in let forced := [(2%nat, mkpc 2 0 1 1)] in
+  let evs := [Import 1; Finalise 1; Import 2] in
+  go_setid_by_number (fst (run_go (only 2) t [] forced ginit evs)) 2 = Some 0 /\
+  option_map (fun q => spec_setid_by_number q 2) (run_spec t [] forced sinit evs) = Some 1 /\
+  go_setid_by_number (fst (run_go fixed t [] forced ginit evs)) 2 = Some 1.
+Proof. vm_compute. repeat split; reflexivity. Qed.
+Print Assumptions C23_forced_setid_prefix_refuted.
+
+(* scheduled change in block 1 with delay 2: finalising block 2 dropped it *)
+Theorem C23_scheduled_prune_prefix_refuted :
+  let t := [O; 1%nat; 2%nat; 3%nat] in let sched := [(1%nat, mkpc 1 2 5 0)] in
+  let evs := [Import 1; Import 2; Import 3; Import 4; Finalise 2; Finalise 3] in
+  g_setid (fst (run_go (only 3) t sched [] ginit evs)) = 0 /\
+  option_map s_setid (run_spec t sched [] sinit evs) = Some 1 /\
+  g_setid (fst (run_go fixed t sched [] ginit evs)) = 1.
+Proof. vm_compute. repeat split; reflexivity. Qed.
+Print Assumptions C23_scheduled_prune_prefix_refuted.
+
+(* scheduled change on a fork that the finalisation abandons: ApplyScheduledChanges fails, the
+   stale change stays, the next announcement on the live fork cannot even be imported, and
+   every later finalisation fails again: the change of the finalised fork is never enacted *)
+Theorem C23_pruned_fork_prefix_refuted :
+  let t := [O; O; 1%nat] in let sched := [(2%nat, mkpc 2 0 5 0); (3%nat, mkpc 3 0 6 0)] in
+  let evs := [Import 1; Import 2; Finalise 1; Import 3; Finalise 3] in
+  snd (run_go (only 4) t sched [] ginit evs) = [ROk; ROk; RErrSched; RErrDigest; RErrSched] /\
+  g_setid (fst (run_go (only 4) t sched [] ginit evs)) = 0 /\
+  option_map s_setid (run_spec t sched [] sinit evs) = Some 1 /\
+  g_setid (fst (run_go fixed t sched [] ginit evs)) = 1.
+Proof. vm_compute. repeat split; reflexivity. Qed.
+Print Assumptions C23_pruned_fork_prefix_refuted.
+
+(* scheduled change (effective 2) enacted by finalising block 4: block 3 was finalised by set 0 *)
+Theorem C23_scheduled_setid_prefix_refuted :
+  let t := [O; 1%nat; 2%nat; 3%nat] in let sched := [(1%nat, mkpc 1 1 5 0)] in
+  let evs := [Import 1; Import 2; Import 3; Import 4; Finalise 4] in
+  go_setid_by_number (fst (run_go (only 5) t sched [] ginit evs)) 3 = Some 1 /\
+  option_map (fun q => spec_setid_by_number q 3) (run_spec t sched [] sinit evs) = Some 0 /\
+  go_setid_by_number (fst (run_go fixed t sched [] ginit evs)) 3 = Some 0.
+Proof. vm_compute. repeat split; reflexivity. Qed.
+Print Assumptions C23_scheduled_setid_prefix_refuted.
+
+(* known finding forced-change-on-finalised-chain (kept: the repaired model still differs) *)
+Theorem C23_forced_on_finalised_chain_refuted :
+  let t := [O; 1%nat; 2%nat] in let forced := [(1%nat, mkpc 1 2 1 0)] in
+  let evs := [Import 1; Import 2; Finalise 2; Import 3] in
+  g_setid (fst (run_go fixed t [] forced ginit evs)) = 0 /\
+  option_map s_setid (run_spec t [] forced sinit evs) = Some 1 /\
+  option_map (fun q => guard_forced_on_finalised t q (Finalise 2))
+             (run_spec t [] forced sinit [Import 1; Import 2]) = Some true.
+Proof. vm_compute. repeat split; reflexivity. Qed.
+Print Assumptions C23_forced_on_finalised_chain_refuted.
